@@ -458,7 +458,7 @@ func (c *c27Ctx) resumeCase(cs C27Case) {
 
 func TestVerifC27(t *testing.T) {
 	r := ev.Start(t, "C27", "exploration")
-	maxN := r.Pick(300, 4200)
+	maxN := r.Pick(300, 3000)
 	maxM := r.Pick(40, 160)
 	flipAll := r.Pick(128, 300)
 	denseAll := r.Pick(64, 300)
